@@ -132,9 +132,13 @@ typedef struct {
 static const char *outdir = ".";
 static void print_agg(void);
 static void agg_note_abort(int kind);
+static void install_crash_handlers(void);
 static hx_plan_t *cur_plan;
 static uint64_t cur_seed;
 static int in_child;
+static int in_replay_mode;
+uint64_t hx_current_seed(void) { return cur_seed; }
+int hx_in_replay(void) { return in_replay_mode; }
 static int child_fd = -1;
 
 static void dump_case(uint64_t seed, const hx_plan_t *p, const char *tag)
@@ -163,17 +167,26 @@ static void on_abort(int kind, const char *detail)
     runrec_t r;
     memset(&r, 0, sizeof(r));
     r.seed = cur_seed;
-    r.verdict = kind == SIM_END_DEADLOCK ? 3 : 4;
-    snprintf(r.vclass, sizeof(r.vclass), "%s", kind == SIM_END_DEADLOCK ? "deadlock" : "budget");
-    snprintf(r.detail, sizeof(r.detail), "%s", detail);
-    dump_case(cur_seed, cur_plan, kind == SIM_END_DEADLOCK ? "viol" : "budget");
+    int isviol = kind == SIM_END_DEADLOCK || kind == SIM_END_NOPROGRESS;
+    r.verdict = isviol ? 3 : 4;
+    snprintf(r.vclass, sizeof(r.vclass), "%s", kind == SIM_END_DEADLOCK ? "deadlock" : kind == SIM_END_NOPROGRESS ? "no-progress" : "budget");
+    {
+        char extra[512] = "";
+        if (H->describe_abort) H->describe_abort(extra, sizeof(extra));
+        snprintf(r.detail, sizeof(r.detail), "%s%s%s", kind == SIM_END_NOPROGRESS ? "no completion within the step budget with faults stopped and round-robin scheduling" : detail, extra[0] ? "; " : "", extra);
+        if (H->annotate && cur_plan && !in_child) { char a[256] = ""; H->annotate(cur_plan, a, sizeof(a)); if (a[0]) { size_t l = strlen(r.detail); snprintf(r.detail + l, sizeof(r.detail) - l, " %s", a); } }
+        for (char *c = r.detail; *c; c++) if (*c == '\n') *c = ' ';
+        detail = r.detail;
+    }
+    dump_case(cur_seed, cur_plan, isviol ? "viol" : "budget");
+    if (getenv("VERIF_DEBUG")) { fprintf(stderr, "[hx] abort kind=%d %s\n", kind, detail); sim_dump_threads(stderr); }
     if (in_child) { write_rec(&r); _exit(0); }
     agg_note_abort(kind);
     printf("ABORT seed=%llu kind=%s detail=%s\n", (unsigned long long)cur_seed, r.vclass, detail);
-    if (kind == SIM_END_DEADLOCK) { fflush(stdout); sim_dump_threads(stdout); }
+    if (isviol) { fflush(stdout); sim_dump_threads(stdout); }
     print_agg();
     fflush(stdout);
-    _exit(kind == SIM_END_DEADLOCK ? 3 : 4);
+    _exit(isviol ? 3 : 4);
 }
 
 static void run_sim(uint64_t seed, hx_plan_t *p, const char *trace, runrec_t *rec)
@@ -188,6 +201,7 @@ static void run_sim(uint64_t seed, hx_plan_t *p, const char *trace, runrec_t *re
     sp.pct_len = sp.stall_len = H->est_steps;
     sp.gap_lo = H->est_steps * 8.0 / 128; if (sp.gap_lo < 8) sp.gap_lo = 8;
     sp.gap_hi = H->est_steps * 8.0;
+    if (H->gap_lo > 0) { sp.gap_lo = H->gap_lo; sp.gap_hi = H->gap_hi; }
     sp.max_steps = H->max_steps;
     sp.record = 1;
     sp.trace_text = trace;
@@ -214,7 +228,20 @@ static void run_sim(uint64_t seed, hx_plan_t *p, const char *trace, runrec_t *re
     } else rec->verdict = 0;
 }
 
+static void run_one_inner(uint64_t seed, hx_plan_t *p, const char *trace, runrec_t *rec, const char *dump_tag_on_viol);
 static void run_one(uint64_t seed, hx_plan_t *p, const char *trace, runrec_t *rec, const char *dump_tag_on_viol)
+{
+    run_one_inner(seed, p, trace, rec, dump_tag_on_viol);
+    if ((rec->verdict == 1 || rec->verdict == 3) && H->annotate) {
+        char a[256] = "";
+        H->annotate(p, a, sizeof(a));
+        if (a[0]) {
+            size_t l = strlen(rec->detail);
+            snprintf(rec->detail + l, sizeof(rec->detail) - l, " %s", a);
+        }
+    }
+}
+static void run_one_inner(uint64_t seed, hx_plan_t *p, const char *trace, runrec_t *rec, const char *dump_tag_on_viol)
 {
     memset(rec, 0, sizeof(*rec));
     if (!H->fork_per_run) {
@@ -357,6 +384,7 @@ int hx_main(int argc, char **argv, const hx_harness_t *h)
     }
     mkdir(outdir, 0777);
     sim_set_abort_handler(on_abort);
+    if (!h->fork_per_run) install_crash_handlers();
     if (h->init) h->init();
     static hx_plan_t plan;
     static runrec_t rec;
@@ -371,7 +399,7 @@ int hx_main(int argc, char **argv, const hx_harness_t *h)
     }
 
     if (print_plan >= 0) {
-        hx_rng_t r = {(uint64_t)print_plan * 0x9E3779B97F4A7C15ULL + 0x1234};
+        uint64_t s0 = (uint64_t)print_plan ^ 0x5eed5eed5eedULL; hx_rng_t r = {sim_splitmix(&s0)};
         memset(&plan, 0, sizeof(plan));
         h->gen(&plan, &r);
         for (int k = 0; k < nk; k++) hx_set_knob(&plan, kn[k], kv[k]);
@@ -379,6 +407,7 @@ int hx_main(int argc, char **argv, const hx_harness_t *h)
         return 0;
     }
     if (planf) {
+        in_replay_mode = 1;
         memset(&plan, 0, sizeof(plan));
         plan_read(planf, &plan);
         for (int k = 0; k < nk; k++) hx_set_knob(&plan, kn[k], kv[k]);
@@ -399,7 +428,7 @@ int hx_main(int argc, char **argv, const hx_harness_t *h)
     for (uint64_t i = 0; i < count; i++) {
         uint64_t seed = base + offset + i * stride;
         if (tlimit > 0 && wall() - t0 > tlimit) break;
-        hx_rng_t r = {seed * 0x9E3779B97F4A7C15ULL + 0x1234};
+        uint64_t s0 = seed ^ 0x5eed5eed5eedULL; hx_rng_t r = {sim_splitmix(&s0)};
         if (plan.text) { free(plan.text); }
         memset(&plan, 0, sizeof(plan));
         h->gen(&plan, &r);
@@ -472,5 +501,37 @@ static void print_agg(void)
 static void agg_note_abort(int kind)
 {
     runs++;
-    if (kind == SIM_END_DEADLOCK) viol++; else budget++;
+    if (kind == SIM_END_DEADLOCK || kind == SIM_END_NOPROGRESS) viol++; else budget++;
+}
+
+/* a crash (SIGSEGV & co) inside simulated code in an in-process worker is a verdict of the
+ * run that was executing, not an infrastructure failure */
+#include <signal.h>
+static void crash_handler(int sig)
+{
+    static volatile int once;
+    if (once++) _exit(2);
+    char path[512];
+    if (cur_plan) {
+        snprintf(path, sizeof(path), "%s/viol_%llu.plan", outdir, (unsigned long long)cur_seed);
+        FILE *f = fopen(path, "w");
+        if (f) { plan_write(f, cur_plan); fclose(f); }
+    }
+    runs++; viol++;
+    printf("VIOL seed=%llu class=crash detail=signal %d inside simulated code\n", (unsigned long long)cur_seed, sig);
+    print_agg();
+    fflush(stdout);
+    _exit(1);
+}
+static void install_crash_handlers(void)
+{
+    static char altstack[1 << 16];
+    stack_t ss = {.ss_sp = altstack, .ss_size = sizeof(altstack), .ss_flags = 0};
+    sigaltstack(&ss, NULL);
+    struct sigaction sa;
+    memset(&sa, 0, sizeof(sa));
+    sa.sa_handler = crash_handler;
+    sa.sa_flags = SA_ONSTACK | SA_NODEFER;
+    int sigs[] = {SIGSEGV, SIGBUS, SIGFPE, SIGABRT, SIGILL};
+    for (unsigned i = 0; i < sizeof(sigs) / sizeof(sigs[0]); i++) sigaction(sigs[i], &sa, NULL);
 }
